@@ -404,12 +404,18 @@ func (state *state) removeAll(reason error) {
 }
 
 func (state *state) send(msg interface{}, events map[string][]string) error {
+	var matchErr error
 	for qStr, clientSubscriptions := range state.subscriptions {
 		q := state.queries[qStr].q
 
 		match, err := q.Matches(events)
 		if err != nil {
-			return fmt.Errorf("failed to match against query %s: %w", q.String(), err)
+			// One subscriber's query failing on this event must not keep the event
+			// from the subscribers that come later in the (random) map order.
+			if matchErr == nil {
+				matchErr = fmt.Errorf("failed to match against query %s: %w", q.String(), err)
+			}
+			continue
 		}
 
 		if match {
@@ -429,5 +435,5 @@ func (state *state) send(msg interface{}, events map[string][]string) error {
 		}
 	}
 
-	return nil
+	return matchErr
 }
